@@ -9,6 +9,7 @@ _FAMILIES = {
     "lease": ["C15"],
     "cache": ["C05", "C08"],
     "fullsync": ["C03", "C04", "C20"],
+    "ckpt": ["C17"],
 }
 
 REGISTRY = {}
